@@ -123,12 +123,14 @@ struct fiber {
 	void *ptw; void (*ptw_dest) (void *);
 	long call_seq; int in_api;
 	int prio;
+	const volatile uint32_t *pend_wait; /* about to load its `waiting` flag in the wait loop of nsync_mu_lock_slow_ */
 	/* futex */
 	int *fut_addr; int fut_woken; int fut_result; int fut_fault;
 };
 #define MAXF 16
 static struct fiber fibers[MAXF]; static int nfibers; static int cur = -1;
 static ucontext_t sched_ctx;
+static int early_round = 1;
 static long write_epoch; static long steps;
 static int64_t now_ns;
 static int sched_rec[1 << 17]; static int sched_len;
@@ -181,6 +183,7 @@ static int pct_points[8]; static int pct_n; static int consec;
    mutex is held by somebody else (so that every retry of the victim loses the race), or when nobody else can run */
 int (*vf_victim_may_run_hook) (void);
 void (*vf_sem_sleep_hook) (int tid);
+void (*vf_requeue_hook) (int tid); /* a thread marks its waiter record `waiting` inside nsync_mu_lock_slow_: one more lost race */
 
 int vf_run (void) {
 	int i;
@@ -216,7 +219,7 @@ int vf_run (void) {
 		if (++steps > cfg.step_limit) {
 			/* PCT and the adversarial strategy are unfair by design: before calling it a livelock give the
 			   execution the same budget again under the fair (uniform random) scheduler */
-			if (cfg.strategy >= 3 && cfg.script == NULL) { cfg.strategy = 0; cfg.step_limit *= 2; vf_log_env ("fair-continuation"); }
+			if (cfg.strategy >= 3 && (cfg.script == NULL || script_pos >= cfg.script_len)) { cfg.strategy = 0; cfg.step_limit *= 2; vf_log_env ("fair-continuation"); }
 			else { return (VF_STEPLIMIT); }
 		}
 		if (cfg.script != NULL && script_pos < cfg.script_len) {
@@ -230,9 +233,14 @@ int vf_run (void) {
 			/* a spinning high-priority fiber must not starve the others: demote it after a long run */
 			if (pick == cur) { consec++; } else { consec = 0; }
 			if (nrun > 1 && (fibers[pick].quiet_ops > 6 || consec > 60)) { fibers[pick].prio = 0; consec = 0; } /* below every change-point priority */
-		} else if (cfg.strategy == 4) {
+		} else if (cfg.strategy == 4 || cfg.strategy == 5) {
 			int others[MAXF]; int no = 0; int v_ok = 0;
 			for (i = 0; i != nrun; i++) { if (run[i] == 0) { v_ok = 1; } else { others[no++] = run[i]; } }
+			/* strategy 5 = 4 plus EARLY WAKE-UPS: the victim, queued and about to read its `waiting` flag for the
+			   first time, is held back until an unlocker has dequeued and woken it, so it never reaches the
+			   semaphore wait in that round (the flag is already clear and the post is left pending) */
+			if (cfg.strategy == 5 && v_ok && no != 0 && fibers[0].pend_wait != NULL && *fibers[0].pend_wait != 0 && early_round) { v_ok = 0; }
+			if (cfg.strategy == 5 && fibers[0].pend_wait == NULL) { early_round = (vf_rand () % 3) != 0; }
 			if (v_ok && (no == 0 || (vf_victim_may_run_hook != NULL && (*vf_victim_may_run_hook) ()))) { pick = 0; }
 			else if (no != 0) {
 				if (cur > 0 && runnable (&fibers[cur]) && (vf_rand () % 4) != 0) { pick = cur; } else { pick = others[vf_rand () % no]; }
@@ -357,7 +365,9 @@ static void note_op (int wrote) {
 /* ------------------------------------------------------------------ atomic operations */
 uint32_t vf_load (const nsync_atomic_uint32_ *p, int ord, const char *file, int k, const char *func, const char *expr) {
 	char lb[64]; uint32_t v; long e0;
+	if (cur >= 0 && has (expr, "waiting") && has (func, "nsync_mu_lock_slow_")) { fibers[cur].pend_wait = (const volatile uint32_t *) p; }
 	sched_point ();
+	if (cur >= 0) { fibers[cur].pend_wait = NULL; }
 	e0 = write_epoch;
 	v = *(const volatile uint32_t *) p;
 	vf_log ("atm %s/%d/%s ld %s %s - - %u -", file, k, func, ordname[ord], loc_name (p, func, expr, lb, sizeof (lb)), v);
@@ -370,6 +380,7 @@ void vf_store (nsync_atomic_uint32_ *p, uint32_t v, int ord, const char *file, i
 	old = *(volatile uint32_t *) p;
 	*(volatile uint32_t *) p = v;
 	vf_log ("atm %s/%d/%s st %s %s - %u %u -", file, k, func, ordname[ord], loc_name (p, func, expr, lb, sizeof (lb)), v, old);
+	if (v == 1 && has (expr, "waiting") && has (func, "nsync_mu_lock_slow_") && vf_requeue_hook != NULL) { (*vf_requeue_hook) (cur); }
 	if (v == 1 && has (expr, "waiting") && has (func, "nsync_cv_wait_with_deadline_generic")) { struct obj *wo = find_obj (p); if (wo != NULL) { wo->unl = 0; } }
 	note_op (1);
 }
@@ -467,7 +478,7 @@ int vf_my_waiter_unlinked_by_waker (void) {
 /* ------------------------------------------------------------------ semaphores */
 static int64_t time_to_ns (nsync_time t) {
 	if (nsync_time_cmp (t, nsync_time_no_deadline) == 0) { return (INF_NS); }
-	if (NSYNC_TIME_SEC (t) < 0) { return (INT64_MIN / 2); }
+	if ((double) NSYNC_TIME_SEC (t) < -9.0e9) { return (INT64_MIN / 2); }
 	if ((double) NSYNC_TIME_SEC (t) > 9.0e9) { return (INF_NS - 1); }
 	return ((int64_t) NSYNC_TIME_SEC (t) * 1000000000 + NSYNC_TIME_NSEC (t));
 }
